@@ -217,12 +217,18 @@ impl Hot {
   }
 
   pub fn observer_count(&self) -> Option<usize> {
-    match self {
-      Hot::Harness(_) => None,
-      Hot::Subject(s) => Some(s.verif_observer_count()),
-      Hot::Behavior(s) => Some(s.verif_observer_count()),
-      Hot::Replay(s) => Some(s.verif_observer_count()),
-      Hot::Async(s) => Some(s.verif_observer_count()),
+    let n = match self {
+      Hot::Harness(_) => return None,
+      Hot::Subject(s) => s.verif_observer_count(),
+      Hot::Behavior(s) => s.verif_observer_count(),
+      Hot::Replay(s) => s.verif_observer_count(),
+      Hot::Async(s) => s.verif_observer_count(),
+    };
+    // usize::MAX = the accessor could not be generated for this tree (rx_inst/build.rs)
+    if n == usize::MAX {
+      None
+    } else {
+      Some(n)
     }
   }
 }
